@@ -147,7 +147,7 @@ int main(int argc, char** argv) {
         jobs.push_back({c, o});
     };
     const char* fmts[] = {"opl", "osm", "pbf", "o5m"};
-    if (capsweep) {
+    if (capsweep || m.replay_mode()) {      // (a replayed artefact names its configuration; the sweep's configurations are offered too)
         // every initial capacity of the parsers' buffers from 64 to 640 bytes in steps of 8 (so that for some capacity every builder
         // call of the decoders is the one at which the buffer grows / a nested buffer starts), deterministic schedule
         for (auto fmt : fmts) for (int cap = 64; cap <= 640; cap += 8) {
@@ -157,10 +157,13 @@ int main(int argc, char** argv) {
             if (cap % 24 == 16 || T) { Cfg b = c; b.big = true; add(b, 0, true, 1); }
         }
         for (auto& j : jobs) { std::string name = "D:" + j.c.name(); if (m.replay_mode()) m.run(name, [&] { body(j.c); }, j.o); else { vsched::Options o = j.o; o.min_bound = 0; o.max_bound = 0; m.run(name, [&] { body(j.c); }, o); } }
-        int rc2 = m.finish();
-        for (auto f : {"/in.opl", "/in.osm", "/in.pbf", "/in.o5m", "/inbig.opl", "/inbig.osm", "/inbig.pbf", "/inbig.o5m"}) unlink((g_dir + f).c_str());
-        rmdir(g_dir.c_str());
-        return rc2;
+        if (capsweep) {
+            int rc2 = m.finish();
+            for (auto f : {"/in.opl", "/in.osm", "/in.pbf", "/in.o5m", "/inbig.opl", "/inbig.osm", "/inbig.pbf", "/inbig.o5m"}) unlink((g_dir + f).c_str());
+            rmdir(g_dir.c_str());
+            return rc2;
+        }
+        jobs.clear();
     }
     // (1) covering subset: each option value with each pool size, per format; deeper bounds
     for (auto fmt : fmts) for (int pool : {1, 2}) {
